@@ -163,3 +163,10 @@ def register(reg):
     gped, gpdh = gpk(2, 'ED'), gpk(3, 'DH')
     gpdh.tiers = ()       # generateDH: no verdict at 40 GB (kept for experiments with --any-tier)
     for p in ('C09', 'C08', 'C06'): O[p] += [gped, gpdh]
+
+    # ------------------------------------------------------------------ C17: nested template attribute read with mixed NULL / non-NULL entries
+    amr = Ob('attrmap_retrieve', 'C02/attrmap_retrieve.cpp', reg.ATTR_REAL, defines={'BS_CAP': 6, 'MODEL_OUT_MAX': 4, 'P11MAP_CAP': 2}, unwind=8, stubs=reg.TAG_STUBS, caps='C02/caps.h', checks=True, throw_assert=True,
+             unwind_rules=[(r'^harness\.', 10)],
+             desc='P11Attribute::retrieve + retrieveAttributeMap on a CKA_WRAP_TEMPLATE attribute with two entries; the caller\'s nested array has symbolic types, lengths and NULL / non-NULL value pointers: nothing is written through a NULL pointer or beyond an announced length (CBMC pointer checks)',
+             bounds='nested template of 2 entries, lengths <= 16', timeout=600, mem=16)
+    O['C17'].append(amr)
